@@ -36,7 +36,7 @@ ASSUMPTIONS = [
 
 D = decimal.Decimal
 decimal.getcontext().prec = 60
-CONTEXTS = ["select", "nested", "cte", "view", "ctas", "where"]
+CONTEXTS = ["select", "nested", "cte", "view", "ctas", "where", "dml"]
 UNSUPPORTED = "<<must-raise>>"
 ERROR = "<<error>>"
 
@@ -92,6 +92,11 @@ def f_regexp_replace(r: random.Random):
     if x < 0.4:
         return f"REGEXP_REPLACE({q(s)}, {q(p)})", re.sub(p, "", s), "no-replacement"
     rep = r.choice(["X", "", "<>", "-"])
+    if x < 0.6:
+        p2 = r.choice(PATTERNS)
+        rep2 = r.choice(["Y", "", "#"])
+        inner = re.sub(p, rep, s)
+        return (f"REGEXP_REPLACE(REGEXP_REPLACE({q(s)}, {q(p)}, {q(rep)}), {q(p2)}, {q(rep2)})", re.sub(p2, rep2, inner), "nested-in-regexp_replace")
     return f"REGEXP_REPLACE({q(s)}, {q(p)}, {q(rep)})", re.sub(p, rep.replace("\\", "\\\\"), s), "replacement"
 
 
@@ -218,9 +223,13 @@ def f_dateadd(r: random.Random):
         try:
             exp = add_months(base, months)
         except ValueError:
-            return f"DATEADD({part}, 0, {lit})", base, f"{part}/{'date' if is_date else 'timestamp'}"
+            return f"DATEADD({part}, 0, {lit})", base, f"{part}/{'date' if is_date else 'timestamp'}/literal-count"
     spell = r.choice([part, part.upper(), f"'{part}'"])
-    return f"DATEADD({spell}, {n}, {lit})", exp, f"{part}/{'date' if is_date else 'timestamp'}"
+    nsql, ntag = str(n), "literal-count"
+    if r.random() < 0.3:
+        a = r.randint(-5, 5)
+        nsql, ntag = (f"{n - a} + {a}" if a >= 0 else f"{n - a} - {-a}"), "compound-count"
+    return f"DATEADD({spell}, {nsql}, {lit})", exp, f"{part}/{'date' if is_date else 'timestamp'}/{ntag}"
 
 
 def f_datediff(r: random.Random):
@@ -394,6 +403,9 @@ def _eval(cur: Any, expr: str, ctx: str) -> dict:
         sqls = [f"SELECT {expr} AS X"]
     elif ctx == "nested":
         sqls = [f"SELECT COALESCE(CASE WHEN 1 = 1 THEN {expr} END, {expr}) AS X"]
+    elif ctx == "dml":
+        sqls = ["CREATE OR REPLACE TABLE T_C10D AS SELECT 1 AS K", f"CREATE OR REPLACE TABLE T_C10E AS SELECT K, {expr} AS X FROM T_C10D WHERE K = 1",
+                "SELECT X FROM T_C10E"]
     elif ctx == "cte":
         sqls = [f"WITH c AS (SELECT {expr} AS X) SELECT X FROM c"]
     elif ctx == "view":
